@@ -88,6 +88,10 @@ def run_C02(tier, seed):
     # pairwise distinct derivation (up to 1024 parties)
     res.append(stages.generators_stage("C02", tier, seed, threads=0))
     res.append(stages.api_stage("C02", "batch", tier, seed, groups=("fm",)))
+    # statements edited after construction (public fields): no promise entry for some commitment, or surplus entries; the
+    # independent prover builds the proof most favourable to a verifier that pairs commitments with promise entries
+    res.append(stages.cases_stage("C02", "MC_Malformed", tier, seed, invariants="Sound", consts="PairAndStop = FALSE",
+                                  negative=("PairAndStop = TRUE", "Sound")))
     return res
 
 
